@@ -22,11 +22,11 @@ LayerA ==
 
 Load(i) == /\ files' = {c \in Files : Traces[i][c]}
            /\ dash' = Traces[i].dash /\ cli' = Traces[i].cli /\ lang' = Traces[i].lang
-           /\ spelling' = Traces[i].spelling /\ done' = TRUE
+           /\ spelling' = Traces[i].spelling /\ companion' = Traces[i].companion /\ done' = TRUE
 
 TraceInit == /\ tid = 1 /\ done = TRUE
              /\ files = {c \in Files : Traces[1][c]} /\ dash = Traces[1].dash /\ cli = Traces[1].cli
-             /\ lang = Traces[1].lang /\ spelling = Traces[1].spelling
+             /\ lang = Traces[1].lang /\ spelling = Traces[1].spelling /\ companion = Traces[1].companion
 TraceNext == /\ tid <= Len(Traces)
              /\ PrintT(<<"VERDICT", tid, LayerA, "ok", 0>>)
              /\ tid' = tid + 1
